@@ -5,6 +5,7 @@
   dictionary and the option record).
 -/
 import Mappy.Model.Printer
+import Mappy.Model.Reload
 import Mappy.Lemmas.Assoc
 import Mappy.Props.C03
 
@@ -80,14 +81,83 @@ open Quoter
 theorem upper_idem (s : Str) : upper (upper s) = upper s := by
   simp [upper, List.map_map, Function.comp_def, upperC_idem]
 
-/-- the two differences a reload may show (C01): an enumerated word comes back upper-cased, a number at a keyword
-typed `string` comes back as its decimal string -/
-def normV (attr : Str) (p : CellProps) (v : J) : J :=
-  match v with
-  | .str s => if p.hasEnum && attr ≠ s%"compop" then .str (upper s) else v
-  | .int n => if !p.hasEnum && p.typeString && !p.isExpr then .str (intStr n) else v
-  | .flt x => if !p.hasEnum && p.typeString && !p.isExpr then .str x else v
-  | v => v
+theorem lowerC_upperC (c : Char) : lowerC (upperC c) = lowerC c := by
+  unfold upperC
+  split
+  · rename_i h
+    unfold lowerC
+    rw [ofNat_toNat (c.toNat - 32) (by omega)]
+    have h1 : 65 ≤ c.toNat - 32 ∧ c.toNat - 32 ≤ 90 := by omega
+    rw [if_pos h1, if_neg (by omega)]
+    have : c.toNat - 32 + 32 = c.toNat := by omega
+    rw [this]
+    exact Char.ofNat_toNat c
+  · rfl
+
+theorem lower_upper (s : Str) : lower (upper s) = lower s := by
+  simp only [lower, upper, List.map_map]
+  congr 1
+  funext c
+  exact lowerC_upperC c
+
+theorem upperC_ne_i (c : Char) : upperC c ≠ 'i' := by
+  unfold upperC
+  split
+  · rename_i h
+    intro e
+    have := congrArg Char.toNat e
+    rw [ofNat_toNat (c.toNat - 32) (by omega)] at this
+    have hi : ('i' : Char).toNat = 105 := by decide
+    omega
+  · rename_i h
+    intro e
+    subst e
+    exact h (by decide)
+
+/-- an upper-cased text never ends in `'i` / `"i` (the case-insensitive string suffix) -/
+theorem endsWith_i_upper (a : Char) (s : Str) : endsWith [a, 'i'] (upper s) = false := by
+  cases h : endsWith [a, 'i'] (upper s) with
+  | false => rfl
+  | true =>
+    exfalso
+    simp only [endsWith, List.isSuffixOf_iff_suffix] at h
+    obtain ⟨t, ht⟩ := h
+    have hm : 'i' ∈ upper s := by rw [← ht]; simp
+    simp only [upper, List.mem_map] at hm
+    obtain ⟨c, _, hc⟩ := hm
+    exact upperC_ne_i c hc
+
+/-- when the walk of `__check_options_list` ends at an enumeration listing the word, the word is written upper-cased, and
+so is the upper-cased word -/
+theorem checkOptionsList_hit (q : Char) (s : Str) : (os : List Opt) → enumHit s os = true →
+    checkOptionsList q s os = upper s ∧ checkOptionsList q (upper s) os = upper s
+  | [], h => by simp [enumHit] at h
+  | o :: r, h => by
+    simp only [enumHit] at h
+    simp only [checkOptionsList, lower_upper, upper_idem]
+    by_cases h1 : enumHas o (lower s) = true
+    · simp only [h1, if_true] at h ⊢
+      have : lower s ≠ s%"end" := by simpa using h
+      simp [this]
+    · simp only [h1, Bool.false_eq_true, if_false] at h ⊢
+      by_cases h2 : (o.isExpr && (endsWith s%"'i" s || endsWith s%"\"i" s)) = true
+      · simp [h2] at h
+      · simp only [h2, Bool.false_eq_true, if_false] at h ⊢
+        have e1 : endsWith s%"'i" (upper s) = false := endsWith_i_upper _ s
+        have e2 : endsWith s%"\"i" (upper s) = false := endsWith_i_upper _ s
+        simp only [e1, e2, Bool.or_self, Bool.and_false, Bool.false_eq_true, if_false]
+        exact checkOptionsList_hit q s r h
+
+theorem optsRewrite_free (q : Char) (attr : Str) (os : List Opt) (t : Str) (h : guardsFree attr t = true) :
+    optsRewrite q attr os t = checkOptionsList q t os := by
+  simp only [guardsFree, Bool.and_eq_true, Bool.not_eq_true', Bool.and_eq_false_iff, decide_eq_false_iff_not, ne_eq,
+    Decidable.not_not] at h
+  obtain ⟨⟨⟨h1, h2⟩, h3⟩, h4⟩ := h
+  unfold optsRewrite
+  rw [if_neg (by simp [h1])]
+  rw [if_neg (by intro hh; rcases h2 with h2 | h2 <;> simp_all)]
+  rw [if_neg (by intro hh; rcases h3 with h3 | h3 <;> simp_all)]
+  rw [if_neg (by intro hh; rcases h4 with h4 | h4 <;> simp_all)]
 
 /-- **C04_value_normal_form** — formatting the value a reload gives back yields the same text as formatting the
 original value: the text is a fixed point of format ∘ read at every keyword, for every value -/
@@ -96,12 +166,25 @@ theorem C04_value_normal_form (q : Char) (attr : Str) (p : CellProps) (v : J) :
   cases v with
   | str s =>
     simp only [normV]
-    by_cases he : p.hasEnum = true
-    · by_cases hc : attr = s%"compop"
-      · simp [he, hc]
-      · simp only [he, hc, ne_eq, not_false_eq_true, decide_true, Bool.and_self, if_true]
-        simp [formatValue, he, hc, pyStr, upper_idem]
-    · simp [he]
+    by_cases he : (p.hasEnum && decide (attr ≠ s%"compop")) = true
+    · rw [if_pos he]
+      simp only [Bool.and_eq_true, decide_eq_true_eq] at he
+      simp [formatValue, he.1, he.2, pyStr, upper_idem]
+    · rw [if_neg he]
+      by_cases h2 : (!p.hasEnum && !p.typeString && optsEnum attr p.opts s) = true
+      · rw [if_pos h2]
+        simp only [Bool.and_eq_true, Bool.not_eq_true'] at h2
+        obtain ⟨⟨h21, h22⟩, h23⟩ := h2
+        cases ho : p.opts with
+        | none => rw [ho] at h23; simp [optsEnum] at h23
+        | some os =>
+          rw [ho] at h23
+          simp only [optsEnum, Bool.and_eq_true] at h23
+          obtain ⟨⟨g1, g2⟩, g3⟩ := h23
+          have hh := checkOptionsList_hit q s os g3
+          simp only [formatValue, h21, h22, ho, Bool.false_eq_true, if_false,
+            optsRewrite_free q attr os s g1, optsRewrite_free q attr os (upper s) g2, hh.1, hh.2]
+      · rw [if_neg h2]
   | int n =>
     simp only [normV]
     by_cases hc : (!p.hasEnum && p.typeString && !p.isExpr) = true
@@ -118,6 +201,16 @@ theorem C04_value_normal_form (q : Char) (attr : Str) (p : CellProps) (v : J) :
     · simp [hc]
   | _ => rfl
 
+/-- a string is normalised to itself or to its upper-cased spelling -/
+theorem normV_str (attr : Str) (p : CellProps) (s : Str) :
+    normV attr p (.str s) = .str s ∨ normV attr p (.str s) = .str (upper s) := by
+  simp only [normV]
+  split
+  · exact Or.inr rfl
+  · split
+    · exact Or.inr rfl
+    · exact Or.inl rfl
+
 /-- the normal form is reached after one step -/
 theorem C04_normV_idem (attr : Str) (p : CellProps) (v : J) : normV attr p (normV attr p v) = normV attr p v := by
   cases v with
@@ -125,25 +218,29 @@ theorem C04_normV_idem (attr : Str) (p : CellProps) (v : J) : normV attr p (norm
     by_cases hc : (p.hasEnum && decide (attr ≠ s%"compop")) = true
     · have e : ∀ x, normV attr p (.str x) = .str (upper x) := fun x => by simp only [normV]; rw [if_pos hc]
       rw [e, e, upper_idem]
-    · have e : ∀ x, normV attr p (.str x) = .str x := fun x => by simp only [normV]; rw [if_neg hc]
-      rw [e, e]
+    · by_cases h2 : (!p.hasEnum && !p.typeString && optsEnum attr p.opts s) = true
+      · have e : normV attr p (.str s) = .str (upper s) := by simp only [normV]; rw [if_neg hc, if_pos h2]
+        rw [e]
+        rcases normV_str attr p (upper s) with h | h
+        · exact h
+        · rw [h, upper_idem]
+      · have e : normV attr p (.str s) = .str s := by simp only [normV]; rw [if_neg hc, if_neg h2]
+        rw [e, e]
   | int n =>
     by_cases hc : (!p.hasEnum && p.typeString && !p.isExpr) = true
-    · have he : (p.hasEnum && decide (attr ≠ s%"compop")) = false := by
-        simp only [Bool.and_eq_true, Bool.not_eq_true'] at hc; simp [hc.1.1]
-      have e : normV attr p (.int n) = .str (intStr n) := by simp only [normV]; rw [if_pos hc]
+    · have e : normV attr p (.int n) = .str (intStr n) := by simp only [normV]; rw [if_pos hc]
       have e2 : normV attr p (.str (intStr n)) = .str (intStr n) := by
-        simp only [normV]; rw [if_neg (by rw [he]; simp)]
+        simp only [Bool.and_eq_true, Bool.not_eq_true'] at hc
+        simp [normV, hc.1.1, hc.1.2]
       rw [e, e2]
     · have e : normV attr p (.int n) = .int n := by simp only [normV]; rw [if_neg hc]
       rw [e, e]
   | flt x =>
     by_cases hc : (!p.hasEnum && p.typeString && !p.isExpr) = true
-    · have he : (p.hasEnum && decide (attr ≠ s%"compop")) = false := by
-        simp only [Bool.and_eq_true, Bool.not_eq_true'] at hc; simp [hc.1.1]
-      have e : normV attr p (.flt x) = .str x := by simp only [normV]; rw [if_pos hc]
+    · have e : normV attr p (.flt x) = .str x := by simp only [normV]; rw [if_pos hc]
       have e2 : normV attr p (.str x) = .str x := by
-        simp only [normV]; rw [if_neg (by rw [he]; simp)]
+        simp only [Bool.and_eq_true, Bool.not_eq_true'] at hc
+        simp [normV, hc.1.1, hc.1.2]
       rw [e, e2]
     · have e : normV attr p (.flt x) = .flt x := by simp only [normV]; rw [if_neg hc]
       rw [e, e]
